@@ -743,7 +743,13 @@ func (c *HAConfig) binID(path string) string {
 }
 
 func (c *HAConfig) authProxyFrontend() *HASection {
-	return c.ByID["frontend _front__auth"]
+	// auth-proxy names the frontend; _front__auth__local is the default
+	for _, id := range []string{"frontend _front__auth", "frontend _front__auth__local"} {
+		if s := c.ByID[id]; s != nil {
+			return s
+		}
+	}
+	return nil
 }
 
 var reMapArg = regexp.MustCompile(`(map(?:_[a-z]+)?)\(([^,)]+)([,)])`)
